@@ -37,7 +37,20 @@ pub fn run<C: Suite>(ctx: &mut Ctx) {
                         continue;
                     }
                     let ids = ids.clone();
-                    ctx.guard(|ctx| receiver::<C>(ctx, n, t, kind, &ids, r));
+                    ctx.guard(|ctx| receiver::<C>(ctx, n, t, t, kind, &ids, r));
+                }
+                // the concurrent run B may have been started with another threshold
+                for tb in [t + 1, t.saturating_sub(1)] {
+                    if tb < 2 || tb > n || kind != "default" {
+                        continue;
+                    }
+                    for r in 0..n as usize {
+                        if !ctx.item(&format!("n={n} t={t} tB={tb} ids={kind} receiver#{r}")) {
+                            continue;
+                        }
+                        let ids = ids.clone();
+                        ctx.guard(|ctx| receiver::<C>(ctx, n, t, tb, kind, &ids, r));
+                    }
                 }
                 if ctx.item(&format!("n={n} t={t} ids={kind} common-sets")) {
                     let ids = ids.clone();
@@ -48,16 +61,16 @@ pub fn run<C: Suite>(ctx: &mut Ctx) {
     }
 }
 
-fn two_runs<C: Suite>(ctx: &Ctx, n: u16, t: u16, ids: &[Identifier<C>], label: &str) -> Option<[DkgRun<C>; 2]> {
+fn two_runs<C: Suite>(ctx: &Ctx, n: u16, t: u16, tb: u16, ids: &[Identifier<C>], label: &str) -> Option<[DkgRun<C>; 2]> {
     // runs depend on (n,t,ids) only — every receiver item of a shape sees the same two runs
     let mut rng = crate::rng::TraceRng::from_parts(&[b"c09", &ctx.seed.to_le_bytes(), ctx.suite.as_bytes(), label.as_bytes(), &[n as u8, t as u8]]);
     let a = dkg_rounds::<C>(n, t, ids, &mut rng).ok()?;
-    let b = dkg_rounds::<C>(n, t, ids, &mut rng).ok()?;
+    let b = dkg_rounds::<C>(n, tb, ids, &mut rng).ok()?;
     Some([a, b])
 }
 
-fn receiver<C: Suite>(ctx: &mut Ctx, n: u16, t: u16, kind: &str, ids: &[Identifier<C>], ridx: usize) {
-    let Some(runs) = two_runs::<C>(ctx, n, t, ids, kind) else {
+fn receiver<C: Suite>(ctx: &mut Ctx, n: u16, t: u16, tb: u16, kind: &str, ids: &[Identifier<C>], ridx: usize) {
+    let Some(runs) = two_runs::<C>(ctx, n, t, tb, ids, kind) else {
         return ctx.viol("honest-dkg-failed", "", json!({"n": n, "t": t}));
     };
     let mut sorted = ids.to_vec();
@@ -93,7 +106,8 @@ fn receiver<C: Suite>(ctx: &mut Ctx, n: u16, t: u16, kind: &str, ids: &[Identifi
                 r1map.insert(others[j], runs[*dgt].r1_pkgs[&others[j]].clone());
             }
         }
-        let model2 = r1_digits.iter().all(|x| *x < 2);
+        // a contribution of run B made for another threshold has a commitment of another length: part2 refuses it
+        let model2 = r1_digits.iter().all(|x| *x < 2) && (tb == t || r1_digits.iter().all(|x| *x != 1));
         let p2 = dkg::part2(sec1.clone(), &r1map);
         ctx.count("part2_calls");
         if p2.is_ok() != model2 {
@@ -101,6 +115,24 @@ fn receiver<C: Suite>(ctx: &mut Ctx, n: u16, t: u16, kind: &str, ids: &[Identifi
         }
         let sec2 = match &p2 {
             Ok(x) => x.0.clone(),
+            // with runs of different thresholds a participant whose part2 refused has nothing to continue with
+            // (part3 relies on part2 having validated the same round-one map)
+            Err(_) if tb != t => {
+                ctx.class(format!("n={n}/t={t}/tB={tb}/recv{ridx}/r1={:?}/part2-refused", r1_digits));
+                let mut k = 0;
+                while k < m {
+                    r1_digits[k] += 1;
+                    if r1_digits[k] < 3 {
+                        break;
+                    }
+                    r1_digits[k] = 0;
+                    k += 1;
+                }
+                if k == m {
+                    break;
+                }
+                continue;
+            }
             Err(_) => honest_sec2.clone(),
         };
         let mut r2_digits = vec![0usize; m];
@@ -160,7 +192,7 @@ fn receiver<C: Suite>(ctx: &mut Ctx, n: u16, t: u16, kind: &str, ids: &[Identifi
                 break;
             }
         }
-        ctx.class(format!("n={n}/t={t}/recv{ridx}/r1={:?}", r1_digits));
+        ctx.class(format!("n={n}/t={t}/tB={tb}/recv{ridx}/r1={:?}", r1_digits));
         let mut k = 0;
         while k < m {
             r1_digits[k] += 1;
@@ -182,7 +214,7 @@ fn receiver<C: Suite>(ctx: &mut Ctx, n: u16, t: u16, kind: &str, ids: &[Identifi
 
 /// all 2^n vectors "participant j contributes from run v_j": everyone completes, same package, can sign
 fn common_sets<C: Suite>(ctx: &mut Ctx, n: u16, t: u16, kind: &str, ids: &[Identifier<C>]) {
-    let Some(runs) = two_runs::<C>(ctx, n, t, ids, kind) else { return };
+    let Some(runs) = two_runs::<C>(ctx, n, t, t, ids, kind) else { return };
     let mut sorted = ids.to_vec();
     sort_ids_numeric::<C>(&mut sorted);
     let mut rng = ctx.rng("sign");
